@@ -504,7 +504,15 @@ fn run_wf(args: &[String]) {
                     fs.take_log();
                     let cap = 16 + 160 + b.cap_hint + 4096 + rng.below(64) as usize;
                     let mut vu = NullCache;
-                    let o = if transport == "fusedev" {
+                    let o = if transport == "fusedev" && rep % 2 == 1 {
+                        // request and reply share one buffer, as in the production FuseChannel
+                        let vuo: Option<&mut dyn fuse_backend_rs::transport::FsCacheReqHandler> = Some(&mut vu);
+                        let (ret, canary_ok) = vharness::xport::run_fusedev_aliased(&b.bytes, cap, pair.tx, |r, w| match server.handle_message(r, w, vuo, None) {
+                            Ok(n) => format!("ok:{n}"),
+                            Err(e) => format!("err:{}", vharness::xport::err_name(&e)),
+                        });
+                        Outcome { ret, msgs: pair.drain(), canary_ok, tail_untouched: true, written: vec![], dirty_reply: vec![], dirty_req: vec![], wsegs: vec![] }
+                    } else if transport == "fusedev" {
                         run_fusedev(&server, &b.bytes, cap, Some(&mut vu), &pair)
                     } else {
                         let rl = split_lens(&mut rng, b.bytes.len(), 0);
